@@ -47,7 +47,10 @@ type ShardOut struct {
 	Sets       map[string][]string `json:"sets"` // small string sets (distinct kinds seen)
 	Samples    []json.RawMessage   `json:"samples"`
 	Crashed    []string            `json:"crashed,omitempty"`
-	setIdx     map[string]map[string]bool
+	// Distinct: hashes of things seen (states, interleavings…), counted distinct over the whole run
+	Distinct map[string][]uint64 `json:"distinct,omitempty"`
+	distIdx  map[string]map[uint64]bool
+	setIdx   map[string]map[string]bool
 }
 
 func NewShardOut() *ShardOut {
@@ -83,6 +86,25 @@ func (c *C) Seen(set, member string) {
 	if !m[member] && len(m) < 4096 {
 		m[member] = true
 		c.shard.Sets[set] = append(c.shard.Sets[set], member)
+	}
+}
+
+// Distinct records one observed thing (a tree state, a completion order, …) by
+// hash; the evidence reports how many distinct ones the whole run saw.
+func (c *C) Distinct(set string, hash uint64) {
+	so := c.shard
+	if so.distIdx == nil {
+		so.distIdx = map[string]map[uint64]bool{}
+		so.Distinct = map[string][]uint64{}
+	}
+	m := so.distIdx[set]
+	if m == nil {
+		m = map[uint64]bool{}
+		so.distIdx[set] = m
+	}
+	if !m[hash] && len(m) < 2000000 {
+		m[hash] = true
+		so.Distinct[set] = append(so.Distinct[set], hash)
 	}
 }
 
@@ -146,6 +168,11 @@ func (c *C) Join(k *C) {
 		}
 	}
 	c.shard.NTHashes = append(c.shard.NTHashes, k.shard.NTHashes...)
+	for set, l := range k.shard.Distinct {
+		for _, h := range l {
+			c.Distinct(set, h)
+		}
+	}
 	for _, w := range k.shard.Violations {
 		c.nviol++
 		if c.nviol <= 5 {
